@@ -71,7 +71,8 @@ fn functions() -> Vec<(F, usize, Cat)> {
 }
 fn arg_ty(r: &mut Rng, c: Cat) -> Ty {
     let base = match c {
-        Cat::Num => match r.below(5) { 0 | 1 => Ty::Int({ let n = r.range(1, 2); (0..n).map(|_| int_interval(r)).collect() }), 2 | 3 => Ty::Float({ let n = r.range(1, 2); (0..n).map(|_| float_interval(r)).collect() }), _ => Ty::Bool(vec![false, true]) },
+        // (one integer type in six is bounded on one side only: a filter `a <= 10` on an unbounded column)
+        Cat::Num => match r.below(5) { 0 | 1 => if r.chance(1, 6) { Ty::Int(vec![if r.chance(1, 2) { (i64::MIN, r.range(-60, 60)) } else { (r.range(-60, 60), i64::MAX) }]) } else { Ty::Int({ let n = r.range(1, 2); (0..n).map(|_| int_interval(r)).collect() }) }, 2 | 3 => Ty::Float({ let n = r.range(1, 2); (0..n).map(|_| float_interval(r)).collect() }), _ => Ty::Bool(vec![false, true]) },
         Cat::Txt => if r.chance(1, 3) { Ty::Text(None) } else { let n = r.range(1, 4); Ty::Text(Some((0..n).map(|_| r.pick(&["a", "B", "Z", "abc", "1", "12", "-3", "1.5", "true", "x y", ""]).to_string()).collect())) },
         Cat::Boo => Ty::Bool(match r.below(3) { 0 => vec![true], 1 => vec![false], _ => vec![false, true] }),
         Cat::Any2 => gen_ty(r, 0),
